@@ -1,5 +1,5 @@
 CONSTANTS
-  Deviations <- CodeDeviations
+  Deviations <- DevBmeshNotMop
   MhdrFileRelative = FALSE
   NK = 3
   MaxRounds = 2
